@@ -49,7 +49,7 @@ class Node(object):
     """A built operator together with the operands it was built from."""
 
     __slots__ = ('op', 'children', 'entry', 'desc', 'depth', 'available',
-                 'eps')
+                 'eps', 'views')
 
     def __init__(self, op, children, entry, desc):
         self.op = op
@@ -58,6 +58,7 @@ class Node(object):
         self.desc = desc
         self.available = False     # set by the check: op.adjoint exists
         self.eps = 0.0             # set by the check: coarsest precision
+        self.views = False         # set by the check: op(x) is a view of x
         self.depth = 1 + max([c.depth for c in children] + [0])
 
 
@@ -362,6 +363,10 @@ def _b_pwinner(d, c):
 @builder('pwinner_adj')
 def _b_pwinner_adj(d, c):
     vf = _sp(d, c, 'vf')
+    if d.get('infer'):
+        # range built by the operator: ProductSpace(sspace, n, weighting=w)
+        return odl.operator.tensor_ops.PointwiseInnerAdjoint(
+            vf[0], c.vec(vf, d['v']), weighting=_pw_weighting(d.get('w')))
     return odl.operator.tensor_ops.PointwiseInnerAdjoint(vf[0], c.vec(vf, d['v']), vfspace=vf,
                                      weighting=_pw_weighting(d.get('w')))
 
@@ -375,6 +380,9 @@ def _b_pwsum(d, c):
 @builder('matrix')
 def _b_matrix(d, c):
     m = build.array_values(d['m'])
+    if d.get('diag_shift'):
+        # strictly diagonally dominant -> invertible by construction
+        m = m + float(d['diag_shift']) * np.eye(m.shape[0], dtype=m.dtype)
     if d.get('sparse'):
         import scipy.sparse
         m = scipy.sparse.csr_matrix(m)
@@ -460,7 +468,8 @@ def _b_diagonal(d, c, *kids):
 @builder('pspaceop')
 def _b_pspaceop(d, c, *kids):
     """``rows`` holds, per block, the index into ``args`` or None."""
-    mat = [[None if j is None else kids[j].op for j in row]
+    zero = 0 if d.get('zero_int') else None     # both documented spellings
+    mat = [[zero if j is None else kids[j].op for j in row]
            for row in d['rows']]
     return odl.ProductSpaceOperator(mat, domain=_sp(d, c, 'dom'),
                                     range=_sp(d, c, 'ran'))
@@ -476,12 +485,18 @@ def _b_partial(d, c):
 
 @builder('gradient')
 def _b_gradient(d, c):
+    if d.get('infer'):          # domain taken from range[0]
+        return odl.Gradient(range=_sp(d, c, 'ran'), method=d['method'],
+                            pad_mode=d['pad_mode'])
     return odl.Gradient(_sp(d, c), range=_sp(d, c, 'ran'),
                         method=d['method'], pad_mode=d['pad_mode'])
 
 
 @builder('divergence')
 def _b_divergence(d, c):
+    if d.get('infer'):          # range taken from domain[0]
+        return odl.Divergence(domain=_sp(d, c, 'dom'), method=d['method'],
+                              pad_mode=d['pad_mode'])
     return odl.Divergence(domain=_sp(d, c, 'dom'), range=_sp(d, c),
                           method=d['method'], pad_mode=d['pad_mode'])
 
@@ -510,6 +525,8 @@ def _b_resize(d, c):
 
 def _axes(d):
     ax = d.get('axes')
+    if isinstance(ax, int):         # documented: int or sequence of ints
+        return ax
     return None if ax is None else tuple(ax)
 
 
@@ -581,11 +598,15 @@ def _b_sub(d, c, a, b):
 def _b_comp(d, c, a, b):
     if d.get('tmp'):
         return OperatorComp(a.op, b.op, tmp=b.op.range.element())
+    if d.get('matmul'):
+        return a.op @ b.op
     return a.op * b.op
 
 
 @builder('lscal')
 def _b_lscal(d, c, a):
+    if d.get('matmul'):
+        return d['s'] @ a.op
     return d['s'] * a.op
 
 
@@ -594,11 +615,16 @@ def _b_rscal(d, c, a):
     # ``op * s`` turns into ``s * op`` for linear operators; the class itself
     # is public and is what (A * s) gives for a non-linear A, so build it
     # directly
+    if d.get('tmp'):
+        return OperatorRightScalarMult(a.op, d['s'],
+                                       tmp=a.op.domain.element())
     return OperatorRightScalarMult(a.op, d['s'])
 
 
 @builder('rscal_mul')
 def _b_rscal_mul(d, c, a):
+    if d.get('matmul'):
+        return a.op @ d['s']
     return a.op * d['s']
 
 
@@ -614,12 +640,23 @@ def _b_neg(d, c, a):
 
 @builder('lvec')
 def _b_lvec(d, c, a):
-    return c.vec(a.op.range, d['v']) * a.op
+    v = c.vec(a.op.range, d['v'], nonzero=bool(d.get('nz')))
+    if d.get('matmul'):
+        return v @ a.op
+    return v * a.op
 
 
 @builder('rvec')
 def _b_rvec(d, c, a):
-    return a.op * c.vec(a.op.domain, d['v'])
+    v = c.vec(a.op.domain, d['v'], nonzero=bool(d.get('nz')))
+    if d.get('matmul'):
+        return a.op @ v
+    return a.op * v
+
+
+@builder('pos')
+def _b_pos(d, c, a):
+    return +a.op
 
 
 @builder('flvec')
@@ -673,6 +710,21 @@ def _b_adjoint(d, c, a):
     return adj
 
 
+@builder('inverse')
+def _b_inverse(d, c, a):
+    """``A.inverse`` - another linear operator; whether it offers an adjoint
+    is up to its class, the property applies once it does."""
+    try:
+        inv = a.op.inverse
+    except Exception as e:  # noqa: no inverse -> nothing to examine
+        raise AdjointUnavailable('inverse:{}:{}'.format(
+            type(a.op).__name__, type(e).__name__))
+    if inv is None:
+        raise AdjointUnavailable('inverse:{}:None'.format(
+            type(a.op).__name__))
+    return inv
+
+
 @builder('pow')
 def _b_pow(d, c, a):
     return a.op ** int(d['n'])
@@ -683,7 +735,7 @@ def _b_pow(d, c, a):
 
 OFFERED, REFUSED, SILENT = 'offered', 'refused', 'silent'
 
-COMBINATORS = ('sum', 'sub', 'comp', 'pow', 'neg', 'lvec', 'rvec', 'flvec',
+COMBINATORS = ('sum', 'sub', 'comp', 'pow', 'neg', 'pos', 'lvec', 'rvec', 'flvec',
                'broadcast', 'reduction', 'diagonal', 'pspaceop',
                'grad_deriv', 'chain_deriv', 'pwprod_deriv')
 SCALAR_COMBINATORS = ('lscal', 'rscal', 'rscal_mul', 'div')
@@ -727,6 +779,9 @@ def adjoint_expectation(node):
     if e == 'adjoint':
         # the same object was examined as operand.adjoint.adjoint already
         return SILENT, (), 'adjoint of an adjoint (see clause adjadj)'
+    if e == 'inverse':
+        return SILENT, (), ('the documentation of .inverse does not say '
+                            'whether the returned operator offers an adjoint')
     if e in COMBINATORS:
         return OFFERED, (), ('all operands of this {} offer adjoints and the '
                              'rule only documents a refusal for non-linear '
@@ -1161,6 +1216,11 @@ def fam_pointwise(draw):
     op = {'e': e, 'vf': vf, 'w': opw}
     if e in ('pwinner', 'pwinner_adj'):
         op['v'] = draw(seeds())
+    if e == 'pwinner_adj' and draw(st.integers(0, 2)) == 0:
+        # vfspace=None: the operator builds ProductSpace(sspace, n,
+        # weighting=w) itself
+        op['infer'] = True
+        op['vf'] = ['pow', 'X', n, opw]
     if e == 'pwnorm_deriv':
         op['x'] = draw(seeds())
         op['p'] = draw(st.sampled_from([None, 2, 2, 1.5, 3, 1]))
@@ -1233,6 +1293,10 @@ def fam_diff(draw):
         op = {'e': e, 'sp': 'X', 'ran': ran,
               'method': draw(st.sampled_from(DIFF_METHODS)),
               'pad_mode': draw(st.sampled_from(pads))}
+        if draw(st.integers(0, 3)) == 0:
+            # Gradient(range=V): domain taken from V[0]
+            op['infer'] = True
+            op['ran'] = ran or ['pow', 'X', nd]
     else:
         dom = None
         if other:
@@ -1240,6 +1304,10 @@ def fam_diff(draw):
         op = {'e': e, 'sp': 'X', 'dom': dom,
               'method': draw(st.sampled_from(DIFF_METHODS)),
               'pad_mode': draw(st.sampled_from(pads))}
+        if draw(st.integers(0, 3)) == 0:
+            # Divergence(domain=V): range taken from V[0]
+            op['infer'] = True
+            op['dom'] = dom or ['pow', 'X', nd]
     return _case('diff_ops', spaces, op)
 
 
@@ -1366,6 +1434,8 @@ def fam_wavelet(draw):
             else:
                 shape.append(draw(st.integers(1, 3)))
         axes = None if trans == [0, 1] and draw(st.booleans()) else trans
+        if axes is not None and len(axes) == 1 and draw(st.booleans()):
+            axes = axes[0]              # documented: int or sequence
     sd = draw(discr_sd(field, shape=shape,
                        bdry=draw(st.sampled_from([False, False, None]))))
     e = draw(st.sampled_from(['wavelet', 'wavelet', 'wavelet_inv']))
@@ -1497,6 +1567,13 @@ def _leaf(draw, U, dom, ran):
                 cands = ['flatten', 'sampling']
             else:
                 cands = ['sampling']
+        elif not isinstance(dom, str) and dom[0] == 'rn' and \
+                _teq(dom[2], ran) and len(dom) == 3 and U.clean(ran):
+            sd = U.base_sd(ran)
+            # (unweighted only: constant weights are the known region F05)
+            if isinstance(dom[1], int) and sd is not None and \
+                    dom[1] == sd_size(sd) and sd.get('weighting') is None:
+                cands = ['flatten_inv']
     elif pd is None and pr is not None:
         cands += ['broadcast', 'broadcast']
         if all(_teq(p, dom) for p in pr):
@@ -1570,6 +1647,8 @@ def _leaf(draw, U, dom, ran):
                                   _mdt(sd, fd))}
     if e == 'flatten':
         return {'e': e, 'sp': dom, 'order': draw(st.sampled_from(['C', 'F']))}
+    if e == 'flatten_inv':
+        return {'e': e, 'sp': ran, 'order': draw(st.sampled_from(['C', 'F']))}
     if e == 'sampling':
         sd = U.base_sd(dom)
         k = ran[1]
@@ -1625,7 +1704,8 @@ def _leaf(draw, U, dom, ran):
                     row.append(len(args))
                     args.append(draw(_leaf(U, p, q)))
             rows.append(row)
-        return {'e': e, 'rows': rows, 'dom': dom, 'ran': ran, 'args': args}
+        return {'e': e, 'rows': rows, 'dom': dom, 'ran': ran, 'args': args,
+                'zero_int': draw(st.integers(0, 2)) == 0}
     raise HarnessError('unhandled leaf entry {!r}'.format(e))
 
 
@@ -1639,7 +1719,7 @@ def _tree(draw, U, dom, ran, depth):
     if depth <= 0:
         return draw(_leaf(U, dom, ran))
     kinds = ['leaf', 'sum', 'sum', 'comp', 'comp', 'lscal', 'lscal',
-             'adjoint', 'adjoint', 'neg', 'sub']
+             'adjoint', 'adjoint', 'neg', 'sub', 'pos']
     if not U.is_field(ran):
         kinds += ['lvec']
     if not U.is_field(dom):
@@ -1667,24 +1747,40 @@ def _tree(draw, U, dom, ran, depth):
                                    draw(_tree(U, dom, mid, depth - 1))]}
         if not U.is_field(mid) and draw(st.integers(0, 3)) == 0:
             d['tmp'] = True
+        elif draw(st.integers(0, 4)) == 0:
+            d['matmul'] = True          # ``A @ B``
         return d
     if k == 'lscal':
-        return {'e': k, 's': draw(scalars(fr)),
-                'args': [draw(_tree(U, dom, ran, depth - 1))]}
+        d = {'e': k, 's': draw(scalars(fr)),
+             'args': [draw(_tree(U, dom, ran, depth - 1))]}
+        if draw(st.integers(0, 5)) == 0:
+            d['matmul'] = True          # ``s @ A``
+        return d
     both = fd if fd == fr else 'real'
     if k == 'rscal':
         # (A * s) * t re-enters __mul__, which needs t in the range field
-        return {'e': k, 's': draw(scalars(both if depth > 1 else fd)),
-                'args': [draw(_tree(U, dom, ran, depth - 1))]}
+        d = {'e': k, 's': draw(scalars(both if depth > 1 else fd)),
+             'args': [draw(_tree(U, dom, ran, depth - 1))]}
+        if not U.is_field(dom) and draw(st.integers(0, 3)) == 0:
+            d['tmp'] = True             # explicit temporary
+        return d
     if k == 'rscal_mul':
-        return {'e': k, 's': draw(scalars(both)),
-                'args': [draw(_tree(U, dom, ran, depth - 1))]}
+        d = {'e': k, 's': draw(scalars(both)),
+             'args': [draw(_tree(U, dom, ran, depth - 1))]}
+        if draw(st.integers(0, 5)) == 0:
+            d['matmul'] = True          # ``A @ s``
+        return d
     if k == 'div':
         return {'e': k, 's': draw(scalars(both, zero_ok=False)),
                 'args': [draw(_tree(U, dom, ran, depth - 1))]}
     if k in ('lvec', 'rvec'):
-        return {'e': k, 'v': draw(seeds()),
-                'args': [draw(_tree(U, dom, ran, depth - 1))]}
+        d = {'e': k, 'v': draw(seeds()),
+             'args': [draw(_tree(U, dom, ran, depth - 1))]}
+        if draw(st.integers(0, 5)) == 0:
+            d['matmul'] = True          # ``v @ A`` / ``A @ v``
+        return d
+    if k == 'pos':
+        return {'e': k, 'args': [draw(_tree(U, dom, ran, depth - 1))]}
     if k == 'flvec':
         return {'e': k, 'v': draw(seeds()), 'sp': ran,
                 'args': [draw(_tree(U, dom, ['field', ran], depth - 1))]}
@@ -1799,7 +1895,8 @@ def fam_blocks(draw):
             any(all(row[i] is None for row in rows) for i in range(nd))
         op = {'e': e, 'rows': rows, 'args': args,
               'dom': dom if explicit else None,
-              'ran': ran if explicit else None}
+              'ran': ran if explicit else None,
+              'zero_int': draw(st.integers(0, 2)) == 0}
     elif e == 'broadcast':
         op = {'e': e, 'args': [draw(_leaf(U, pd[0], q)) for q in pr]}
     elif e == 'reduction':
@@ -1813,6 +1910,271 @@ def fam_blocks(draw):
         op = {'e': kind, 'repeat': draw(st.integers(1, 3)),
               'args': [draw(_leaf(U, pd[0], pr[0]))]}
     return _case('blocks', U.spaces, op)
+
+
+# --------------------------------------------------------------------------
+# strategies: operands whose result is a view of their argument, under every
+# combinator (aliasing stratum)
+
+VIEW_WRAPS = ['lvec', 'lvec', 'rvec', 'rvec', 'lscal', 'rscal', 'rscal_mul',
+              'div', 'neg', 'mul_left', 'mul_right', 'adj', 'adj', 'none']
+VIEW_COMBINERS = ['single', 'single', 'sum', 'sum', 'sub', 'broadcast',
+                  'broadcast', 'reduction', 'reduction', 'diagonal',
+                  'pspaceop', 'pspaceop', 'outer', 'outer']
+
+
+@st.composite
+def _view(draw, U, dom, ran):
+    """An operator ``dom -> ran`` (dom, ran in {X, R = rn(size(X))}) whose
+    out-of-place result may share memory with its argument: the flattening
+    operator, its inverse, and their compositions."""
+    order = draw(st.sampled_from(['C', 'C', 'C', 'F']))
+    x_is_dom, x_is_ran = isinstance(dom, str), isinstance(ran, str)
+    if x_is_dom and not x_is_ran:
+        return {'e': 'flatten', 'sp': dom, 'order': order}
+    if x_is_ran and not x_is_dom:
+        return {'e': 'flatten_inv', 'sp': ran, 'order': order}
+    if draw(st.integers(0, 3)) == 0:
+        return {'e': 'identity', 'sp': dom}
+    if x_is_dom:
+        X = dom
+        return {'e': 'comp', 'args': [
+            {'e': 'flatten_inv', 'sp': X, 'order': order},
+            {'e': 'flatten', 'sp': X, 'order': order}]}
+    X = dom[2]
+    return {'e': 'comp', 'args': [
+        {'e': 'flatten', 'sp': X, 'order': order},
+        {'e': 'flatten_inv', 'sp': X, 'order': order}]}
+
+
+@st.composite
+def _wrap(draw, U, inner, dom, ran, kinds=None):
+    """One arithmetic wrapper around ``inner: dom -> ran`` - the classes
+    that scale / multiply what their operand returned or received."""
+    field = U.tfield(dom)
+    k = draw(st.sampled_from(kinds or VIEW_WRAPS))
+    if k == 'none':
+        return inner
+    if k in ('lvec', 'rvec'):
+        return {'e': k, 'v': draw(st.integers(1, 10 ** 6)), 'args': [inner]}
+    if k in ('lscal', 'rscal', 'rscal_mul', 'div'):
+        return {'e': k, 's': draw(scalars(field, zero_ok=False)),
+                'args': [inner]}
+    if k == 'neg':
+        return {'e': k, 'args': [inner]}
+    if k == 'mul_left':
+        return {'e': 'comp', 'args': [
+            {'e': 'multiply_vec', 'sp': ran,
+             'v': draw(st.integers(1, 10 ** 6))}, inner]}
+    if k == 'mul_right':
+        return {'e': 'comp', 'args': [inner, {
+            'e': 'multiply_vec', 'sp': dom,
+            'v': draw(st.integers(1, 10 ** 6))}]}
+    # the adjoint of a wrapped view in the opposite direction, e.g.
+    # (v * F.inverse).adjoint = F.inverse.adjoint * v
+    back = draw(_view(U, ran, dom))
+    return {'e': 'adjoint', 'args': [draw(_wrap(
+        U, back, ran, dom, ['lvec', 'rvec', 'lscal', 'rscal', 'mul_left',
+                            'mul_right', 'none']))]}
+
+
+@st.composite
+def _second(draw, U, dom, ran):
+    """The operand that uses the same argument a second time."""
+    k = draw(st.integers(0, 3))
+    if k == 0:
+        return draw(_leaf(U, dom, ran))
+    v = draw(_view(U, dom, ran))
+    if k <= 2:
+        # unwrapped: what the combinator receives from this operand is
+        # itself a view of the shared argument
+        return v
+    return draw(_wrap(U, v, dom, ran))
+
+
+@st.composite
+def fam_views(draw):
+    """Operators whose result shares memory with their argument
+    (FlatteningOperator, its inverse, compositions of them) below every
+    arithmetic wrapper, and the wrapped operator next to a second operand
+    that receives the same argument (sum, difference, broadcast / block
+    column) or sits in the same block row / next in a chain."""
+    field = draw(fields())
+    if draw(st.booleans()):
+        sdx = draw(tensor_sd(field, max_size=6, wkinds=('none',)))
+    else:
+        sdx = draw(discr_sd(field, max_size=6, bdry=False))
+    sdy = draw(tensor_sd(field, max_size=3, max_ndim=1, wkinds=('none',)))
+    sdy['dtype'] = sdx['dtype']
+    U = Universe(field, sdx, sdy)
+    R = ['rn', sd_size(sdx), 'X']
+    dom = draw(st.sampled_from(['X', R]))
+    ran = draw(st.sampled_from(['X', R]))
+    a = draw(_wrap(U, draw(_view(U, dom, ran)), dom, ran))
+    c = draw(st.sampled_from(VIEW_COMBINERS))
+    if c == 'single':
+        op = a
+    elif c in ('sum', 'sub'):
+        b = draw(_second(U, dom, ran))
+        op = {'e': c, 'args': [a, b] if draw(st.booleans()) else [b, a]}
+        if c == 'sum' and draw(st.integers(0, 3)) == 0:
+            op['tmp'] = True
+    elif c in ('broadcast', 'reduction', 'diagonal'):
+        b = draw(_second(U, dom, ran))
+        args = [a, b] if draw(st.booleans()) else [b, a]
+        if draw(st.integers(0, 3)) == 0:
+            args.append(draw(_second(U, dom, ran)))
+        op = {'e': c, 'args': args}
+    elif c == 'pspaceop':
+        # every block dom -> ran; column (shared argument), row (shared
+        # accumulator) or full 2 x 2 with at most one zero block
+        shape = draw(st.sampled_from([(2, 1), (1, 2), (2, 2)]))
+        cells = [(i, j) for i in range(shape[0]) for j in range(shape[1])]
+        first = draw(st.sampled_from(cells))
+        zero = draw(st.sampled_from([None] + cells)) if shape == (2, 2) \
+            else None
+        args, rows = [], [[None] * shape[1] for _ in range(shape[0])]
+        for (i, j) in cells:
+            if (i, j) == zero and (i, j) != first:
+                continue
+            rows[i][j] = len(args)
+            args.append(a if (i, j) == first
+                        else draw(_second(U, dom, ran)))
+        op = {'e': 'pspaceop', 'rows': rows, 'args': args, 'dom': None,
+              'ran': None}
+    else:
+        # a second wrapper on top, or a chain through a second wrapped view
+        if draw(st.booleans()):
+            op = draw(_wrap(U, a, dom, ran, [w for w in VIEW_WRAPS
+                                              if w not in ('none', 'adj')]))
+        else:
+            nxt = draw(st.sampled_from(['X', R]))
+            b = draw(_wrap(U, draw(_view(U, ran, nxt)), ran, nxt))
+            op = {'e': 'comp', 'args': [b, a]}
+            if draw(st.integers(0, 3)) == 0:
+                op['tmp'] = True
+    if draw(st.integers(0, 5)) == 0:
+        op = {'e': 'adjoint', 'args': [op]}
+    return _case('views', U.spaces, op)
+
+
+# --------------------------------------------------------------------------
+# strategies: ``A.inverse`` of invertible configurations (the operators the
+# ``inverse`` properties of the arithmetic classes and of the catalogue
+# classes return are linear operators with an ``adjoint`` of their own)
+
+@st.composite
+def _inv_leaf(draw, U, T):
+    """``(descriptor, range type)`` of an invertible leaf with domain ``T``;
+    range type None = not expressible (no further composition)."""
+    field = U.tfield(T)
+    sd = U.base_sd(T)
+    cands = ['scaling', 'scaling', 'identity']
+    if sd is not None:
+        cands += ['matrix', 'matrix']
+        if isinstance(T, str):
+            cands += ['cembed', 'cembed']
+            if sd.get('weighting') is None:
+                # (constant weights: known region F05 of the flattening pair)
+                cands += ['flatten']
+            if field == 'complex':
+                cands += ['realpart', 'imagpart']
+            if sd['kind'] == 'discr':
+                cands += ['resize', 'resize']
+    elif not isinstance(T, str) and T[0] == 'rn':
+        cands += ['flatten_inv', 'flatten_inv']
+    e = draw(st.sampled_from(cands))
+    if e == 'identity':
+        return {'e': e, 'sp': T}, T
+    if e == 'scaling':
+        return {'e': e, 'sp': T, 's': draw(scalars(field, zero_ok=False))}, T
+    if e == 'matrix':
+        axis = draw(st.integers(0, len(sd['shape']) - 1))
+        n = sd['shape'][axis]
+        return {'e': 'matrix', 'dom': T, 'ran': T, 'axis': axis,
+                'm': _matrix_desc(draw, [n, n], _mdt(sd, field)),
+                'diag_shift': 4.0 * n + 1.0,
+                'sparse': len(sd['shape']) == 1 and
+                draw(st.integers(0, 3)) == 0}, T
+    if e == 'flatten':
+        return ({'e': e, 'sp': T, 'order': draw(st.sampled_from(['C', 'F']))},
+                ['rn', sd_size(sd), T])
+    if e == 'flatten_inv':
+        return ({'e': e, 'sp': T[2],
+                 'order': draw(st.sampled_from(['C', 'F']))}, T[2])
+    if e == 'cembed':
+        return ({'e': e, 'sp': T, 's': draw(cembed_scalars())},
+                T if field == 'complex' else ['cplx', T])
+    if e in ('realpart', 'imagpart'):
+        return {'e': e, 'sp': T}, ['real', T]
+    # resize (pseudo-inverse documented): extension or restriction
+    shape = sd_shape(sd)
+    ran_shp = [max(1, n + draw(st.integers(-1, 2))) for n in shape]
+    return {'e': 'resize', 'sp': T, 'ran_shp': ran_shp,
+            'pad_mode': draw(st.sampled_from(['constant', 'order0',
+                                              'periodic'])),
+            'offset': None}, None
+
+
+@st.composite
+def _inv_wrap(draw, U, inner, dom, ran):
+    k = draw(st.sampled_from(['lscal', 'rscal', 'rscal_mul', 'div', 'neg',
+                              'lvec', 'lvec', 'rvec', 'rvec', 'none',
+                              'none', 'adjoint', 'inverse']))
+    if k == 'none':
+        return inner
+    if k in ('lscal', 'rscal', 'rscal_mul', 'div'):
+        # real scalars: a complex multiple between a real and a complex
+        # space documents a refusal of the adjoint
+        fd = U.tfield(dom)
+        f = fd if ran is not None and fd == U.tfield(ran) else 'real'
+        return {'e': k, 's': draw(scalars(f, zero_ok=False)),
+                'args': [inner]}
+    if k in ('lvec', 'rvec'):
+        return {'e': k, 'v': draw(st.integers(1, 10 ** 6)), 'nz': True,
+                'args': [inner]}
+    return {'e': k, 'args': [inner]}
+
+
+@st.composite
+def fam_inverses(draw):
+    field = draw(fields())
+    sdx = draw(leaf_sd(field, max_size=6, wkinds=('none', 'none', 'const'),
+                       bdry=False, min_side=draw(st.sampled_from([1, 2]))))
+    sdy = draw(tensor_sd(field, max_size=3, max_ndim=1, wkinds=('none',)))
+    sdy['dtype'] = sdx['dtype']
+    U = Universe(field, sdx, sdy)
+    op, T = draw(_inv_leaf(U, 'X'))
+    dom = 'X'
+    for _ in range(draw(st.integers(0, 2))):
+        k = draw(st.sampled_from(['wrap', 'wrap', 'comp', 'diag']))
+        if k == 'wrap':
+            w = draw(_inv_wrap(U, op, dom, T))
+            if w is not op and w['e'] in ('adjoint', 'inverse'):
+                dom, T = T, dom
+                if dom is None:
+                    op = w
+                    break
+            op = w
+        elif k == 'comp' and T is not None:
+            nxt, T2 = draw(_inv_leaf(U, T))
+            op = {'e': 'comp', 'args': [nxt, op]}
+            if draw(st.integers(0, 3)) == 0:
+                op['tmp'] = True
+            T = T2
+        elif T is not None:
+            other, T2 = draw(_inv_leaf(U, dom))
+            if T2 is None or U.tfield(T2) != U.tfield(T):
+                # (a product space needs one field for all parts)
+                other = {'e': 'identity', 'sp': dom}
+                if U.tfield(dom) != U.tfield(T):
+                    other = op
+            op = {'e': 'diagonal', 'args': [op, other]}
+            dom, T = None, None
+            break
+        if T is None:
+            break
+    return _case('inverses', U.spaces, {'e': 'inverse', 'args': [op]})
 
 
 @st.composite
@@ -1853,14 +2215,15 @@ FAMILIES = {
     'pointwise': fam_pointwise, 'projection': fam_projection,
     'diff_ops': fam_diff, 'resize': fam_resize, 'fourier': fam_fourier,
     'wavelet': fam_wavelet, 'blocks': fam_blocks, 'tree': fam_tree,
-    'derivs': fam_derivs,
+    'derivs': fam_derivs, 'views': fam_views, 'inverses': fam_inverses,
 }
 
 # relative frequencies of the families in a run
 FAMILY_WEIGHTS = [('default_ops', 3), ('complex_ops', 2), ('matrix', 3),
                   ('sampling', 2), ('pointwise', 2), ('projection', 2),
                   ('diff_ops', 3), ('resize', 2), ('fourier', 2),
-                  ('wavelet', 1), ('blocks', 2), ('tree', 8), ('derivs', 1)]
+                  ('wavelet', 1), ('blocks', 2), ('tree', 8), ('derivs', 1),
+                  ('views', 3), ('inverses', 1)]
 
 
 def cases():
